@@ -25,7 +25,7 @@ def verus_env():
     return env
 
 
-def run_kernel(kernel: str, repo: str, workdir: str, rlimit=None, timeout=900, canary=True):
+def run_kernel(kernel: str, repo: str, workdir: str, rlimit=None, timeout=900, canary=True, smt_seed=None):
     """Returns dict(status=ok|failed|undecided, ...).  `failed` lists named obligations."""
     t0 = time.time()
     overlay = os.path.join(VDIR, kernel + '.v.rs')
@@ -44,9 +44,22 @@ def run_kernel(kernel: str, repo: str, workdir: str, rlimit=None, timeout=900, c
     res['tags'] = info['tags']
     res['serves'] = info['serves']
     res['regions_checked'] = info['regions_checked']
+    # mechanical assumption scan of the generated file (DESIGN.md section 7)
+    scan = []
+    for ln_no, ln in enumerate(open(out_rs, encoding='utf-8').read().split('\n'), 1):
+        st = ln.strip()
+        if st.startswith('//'):
+            continue
+        for kw in ('assume(', 'admit(', 'external_body', 'assume_specification', 'external_type_specification', 'uninterp spec fn', 'unimplemented!()'):
+            if kw in ln and 'verif_canary' not in ln:
+                scan.append(dict(line=ln_no, keyword=kw, text=st[:160]))
+                break
+    res['assumption_scan'] = scan
     cmd = ['verus', out_rs, '--output-json', '--time', '--error-format=json', '--multiple-errors', '8']
     if rlimit:
         cmd += ['--rlimit', str(rlimit)]
+    if smt_seed is not None:
+        cmd += ['--smt-option', 'smt.random_seed=%d' % smt_seed]
     res['cmd'] = ' '.join(cmd)
     try:
         p = subprocess.run(cmd, cwd=workdir, env=verus_env(), stdout=subprocess.PIPE, stderr=subprocess.PIPE, text=True, timeout=timeout)
